@@ -171,7 +171,7 @@ PROPS = {
                  "type attributes, @deno-types specifiers, side-effect flags) for 7 referrers (ts/js/tsx/mjs/d.ts/d.mts, file/http/https) and "
                  "all graph kinds to the REAL parse_module through a provided analyzer; the recorded dependency map (order, code and type "
                  "targets with the range of the import they were resolved from, is_dynamic, first type attribute, @deno-types text, number of "
-                 "imports) must equal the model's; what a text resolves to comes from separate real runs on a module importing it alone; every other such case is a WHOLE declaration: random @ts-self-types, triple-slash path/types references, JSX import source (+ types), JSDoc imports and an x-typescript-types header are added to the analysis, and the types dependency plus the dependency map must equal the model's (Decl.declared_full)"),
+                 "imports) must equal the model's; what a text resolves to comes from separate real runs on a module importing it alone; every other such case is a WHOLE declaration: random @ts-self-types, triple-slash path/types references, JSX import source (+ types), JSDoc imports and an x-typescript-types header are added to the analysis, and the types dependency plus the dependency map must equal the model's (Decl.declared_full); 35% of the whole declarations are parsed with a Resolver (refused / re-mapped specifier texts, default JSX import source and types source with a jsx module name of its own, resolve_types answering nothing / a types module / an error), whose contributions are part of the model"),
         "assumptions": [
             "stage B1 + registry stage B2: npm: specifiers without an npm resolver (valid ones are answered by the loader, malformed ones are error entries) and with one (the resolver stage at the end of a build is in the model, Builder.npm_resolve / npm_fill: one batch for the static requests in first-appearance order, one call per dynamic request, rejected requirements and failed dependency-graph resolutions as error entries, existing entries kept; the harness resolver's batches and the graph's npm_dep_graph_result are compared too; C01_complete is stated for builds without a resolver), jsr: specifiers either through the registry stage or passed through (BuildOptions::passthrough_jsr_specifiers: marked external at once, tags and malformed ones rejected), no source-phase imports, no source maps, utf-8 sources",
             "registry stream: the extracted model also judges 'nothing unreachable is present' on the graph of every alias-free world (reachability from the roots over redirects and recorded dependencies); known finding F-C01a (entries orphaned by a content load that fails after the embedded module info was followed) is reported as KNOWN-FINDING",
